@@ -286,6 +286,14 @@ def _swap(w, st, fr, path, targs, args, dty):
     return UNIT
 
 
+@builtin("core::slice::<impl core::default::Default for &mut [T]>::default", "core::slice::<impl core::default::Default for &[T]>::default")
+def _empty_slice_default(w, st, fr, path, targs, args, dty):
+    oid = ("empty", len(st.trace), len(st.store))
+    ety = targs[0] if targs else ("int", 8, False, False)
+    st.store[oid] = SymArr("empty", ety, K(0, 64))
+    return Ref(oid, (), "mut" in path, K(0, 64))
+
+
 @builtin("core::mem::replace")
 def _replace(w, st, fr, path, targs, args, dty):
     a = args[0]
@@ -471,6 +479,32 @@ def _slice_iter_next(w, st, fr, path, targs, args, dty):
     return ForkValues([(c, 1, take), (c, 0, NONE)])
 
 
+@builtin("core::array::iter::<impl core::iter::traits::collect::IntoIterator for [T; N]>::into_iter",
+         "core::array::iter::<impl core::iter::IntoIterator for [T; N]>::into_iter")
+def _array_into_iter(w, st, fr, path, targs, args, dty):
+    a = args[0]
+    if not (isinstance(a, Agg) and a.kind == ("array",)):
+        return NOT_HANDLED
+    return Agg(("arrayiter",), 0, [a, K(0, 64)])
+
+
+@builtin("<core::array::IntoIter<T, N> as core::iter::Iterator>::next")
+def _array_iter_next(w, st, fr, path, targs, args, dty):
+    r = args[0]
+    if not isinstance(r, Ref):
+        return NOT_HANDLED
+    it = w.load(st, r.obj, r.proj)
+    if not (isinstance(it, Agg) and it.kind == ("arrayiter",)):
+        return NOT_HANDLED
+    arr, i = it.fields
+    if not (isinstance(i, T) and i.is_const()):
+        return NOT_HANDLED
+    if i.val >= len(arr.fields):
+        return NONE
+    w.store_to(st, r.obj, r.proj, Agg(("arrayiter",), 0, [arr, K(i.val + 1, 64)]))
+    return some(arr.fields[i.val])
+
+
 @builtin("<core::slice::Iter<'a, T> as core::iter::Iterator>::any")
 def _slice_iter_any(w, st, fr, path, targs, args, dty):
     r = args[0]
@@ -494,6 +528,73 @@ def _slice_iter_any(w, st, fr, path, targs, args, dty):
             return NOT_HANDLED
         acc = tm.binop("or", acc, ret)
     return acc
+
+
+@builtin("<core::slice::Iter<'a, T> as core::iter::Iterator>::find")
+def _slice_iter_find(w, st, fr, path, targs, args, dty):
+    """iter.find(pred) over a slice of known length (what Filter::next calls): the first element whose predicate term
+    holds; the predicate must be a pure closure.  One outcome per element plus 'none', with exclusive conditions."""
+    r, clo = args[0], args[1]
+    if not isinstance(r, Ref):
+        return NOT_HANDLED
+    it = w.load(st, r.obj, r.proj)
+    if not (isinstance(it, Agg) and it.kind == ("sliceiter",)):
+        return NOT_HANDLED
+    base, i, n = it.fields
+    if not (i.is_const() and n.is_const()) or n.val - i.val > 32:
+        return NOT_HANDLED
+    cref = clo
+    cval = w.load(st, clo.obj, clo.proj) if isinstance(clo, Ref) else clo
+    hops = 0
+    while isinstance(cval, Ref) and hops < 3:          # &mut &mut F
+        cref, cval = cval, w.load(st, cval.obj, cval.proj)
+        hops += 1
+    if not (isinstance(cval, Agg) and cval.kind[0] == "closure"):
+        return NOT_HANDLED
+    cfn = w.prog.fns.get(cval.kind[1])
+    if cfn is None:
+        return NOT_HANDLED
+    if not isinstance(cref, Ref):
+        oid = ("tmp", "findclo", st.nfid)
+        st.store[oid] = cval
+        cref = Ref(oid, (), True)
+    preds = []
+    for k in range(i.val, n.val):
+        elem = Ref(base.obj, base.proj + (("i", k),), False)
+        eoid = ("tmp", "findelem", st.nfid, k)
+        st.store[eoid] = elem
+        try:
+            ret, _ = w.call_pure(st, cfn, dict(fr.genv), [cref, Ref(eoid, (), False)])
+        except Exception:
+            return NOT_HANDLED
+        if not isinstance(ret, T):
+            return NOT_HANDLED
+        preds.append((k, elem, w.simplify(st, ret)))
+    alts = []
+    none_before = tm.TRUE
+    for k, elem, p_ in preds:
+        cond = w.simplify(st, tm.binop("and", none_before, p_))
+
+        def take(s2, k=k, elem=elem):
+            w.store_to(s2, r.obj, r.proj, Agg(("sliceiter",), 0, [base, K(k + 1, 64), n]))
+            return some(elem)
+        if cond.is_const():
+            if cond.val:
+                alts.append((None, None, take))
+                none_before = tm.FALSE
+                break
+        else:
+            alts.append((cond, 1, take))
+        none_before = w.simplify(st, tm.binop("and", none_before, tm.unop("not", p_)))
+
+    def none_(s2):
+        w.store_to(s2, r.obj, r.proj, Agg(("sliceiter",), 0, [base, n, n]))
+        return NONE
+    if not (none_before.is_const() and none_before.val == 0):
+        alts.append((None, None, none_) if none_before.is_const() else (none_before, 1, none_))
+    if len(alts) == 1 and alts[0][0] is None:
+        return alts[0][2](st)
+    return ForkValues(alts)
 
 
 @builtin("core::ops::RangeInclusive::<Idx>::contains", "core::ops::Range::<Idx>::contains")
@@ -722,6 +823,9 @@ def _index_common(w, st, fr, path, targs, args, dty, mut):
         if s.is_const() and s.val == 0 and isinstance(tgt, (Agg, SymArr)):
             # prefix view of the same object
             return Ref(base.obj, base.proj, mut, n)
+        if mut and isinstance(tgt, Agg) and tgt.kind == ("array",) and s.is_const() and e.is_const() and e.val <= len(tgt.fields):
+            # mutable window of a known array with constant bounds: stores through it land in the array
+            return Ref(base.obj, base.proj + (("view", s.val, e.val - s.val),), True, n)
         oid = ("sub", len(st.trace), tm.show(s))
         if not mut and isinstance(tgt, Agg) and tgt.kind == ("array",) and s.is_const() and e.is_const() and e.val <= len(tgt.fields):
             # shared view of a known array with constant bounds: the elements themselves (nothing can be written through
@@ -745,6 +849,66 @@ def _index(w, st, fr, path, targs, args, dty):
          "core::array::<impl core::ops::IndexMut<I> for [T; N]>::index_mut")
 def _index_mut(w, st, fr, path, targs, args, dty):
     return _index_common(w, st, fr, path, targs, args, dty, True)
+
+
+def _elems(w, st, r):
+    """elements of a slice / array reference with a known constant number of elements, or None"""
+    if not isinstance(r, Ref):
+        return None
+    tgt = w.load(st, r.obj, r.proj)
+    if isinstance(tgt, SymObj):
+        tgt = w.materialise(tgt, st)
+        w.store_to(st, r.obj, r.proj, tgt)
+    if not (isinstance(tgt, Agg) and tgt.kind == ("array",)):
+        return None
+    n = len(tgt.fields)
+    if r.meta is not None:
+        if not (isinstance(r.meta, T) and r.meta.is_const()) or r.meta.val > n:
+            return None
+        n = r.meta.val
+    return list(tgt.fields[:n])
+
+
+@builtin("core::slice::<impl [T]>::contains")
+def _slice_contains(w, st, fr, path, targs, args, dty):
+    es = _elems(w, st, args[0])
+    x = args[1]
+    if isinstance(x, Ref):
+        x = w.load(st, x.obj, x.proj)
+    if es is None or not isinstance(x, T) or not all(isinstance(e, T) for e in es):
+        return NOT_HANDLED
+    r = tm.FALSE
+    for e in es:
+        r = tm.binop("or", r, tm.cmp("eq", e, x))
+    return r
+
+
+@builtin("core::slice::<impl [T]>::split_at")
+def _split_at(w, st, fr, path, targs, args, dty):
+    es = _elems(w, st, args[0])
+    mid = args[1]
+    if es is None or not (isinstance(mid, T) and mid.is_const()):
+        return NOT_HANDLED
+    if mid.val > len(es):
+        return Diverge("split_at: mid > len")
+    a, b = ("split", len(st.trace), 0), ("split", len(st.trace), 1)
+    st.store[a] = Agg(("array",), 0, es[:mid.val])
+    st.store[b] = Agg(("array",), 0, es[mid.val:])
+    return Agg(("tuple",), 0, [Ref(a, (), False, K(mid.val, 64)), Ref(b, (), False, K(len(es) - mid.val, 64))])
+
+
+@builtin("<T as core::convert::TryInto<U>>::try_into", "core::array::<impl core::convert::TryFrom<&'a [T]> for [T; N]>::try_from")
+def _slice_try_into_array(w, st, fr, path, targs, args, dty):
+    """&[T] -> Result<[T; N], _>: Ok with the elements when the slice has exactly N of them"""
+    if not (isinstance(dty, tuple) and dty[0] == "adt" and dty[1].endswith("result::Result") and dty[2] and isinstance(dty[2][0], tuple) and dty[2][0][0] == "array"):
+        return NOT_HANDLED
+    n = dty[2][0][2]
+    es = _elems(w, st, args[0])
+    if es is None or n is None:
+        return NOT_HANDLED
+    if len(es) == n:
+        return Agg(("adt", dty[1]), 0, [Agg(("array",), 0, es)])
+    return Agg(("adt", dty[1]), 1, [Opaque("TryFromSliceError")])
 
 
 @builtin("core::slice::<impl [T]>::copy_from_slice")
